@@ -90,15 +90,18 @@ func (b *Buffer[K, V]) Add(n ReadBufItem[K, V]) *PolicyBuffers[K, V] {
 		// full buffer
 		return nil
 	}
+	verifPoint(vpBufBeforeTailCAS)
 	if b.tail.CompareAndSwap(tail, tail+1) {
 		// success
 		index := int(tail & mask)
+		verifPoint(vpBufBeforePublish)
 		atomic.StorePointer(&b.buffer[index], unsafe.Pointer(&ReadBufItem[K, V]{
 			entry: n.entry,
 			hash:  n.hash,
 		}))
 		if size == capacity-1 {
 			// try return new buffer
+			verifPoint(vpBufBeforeTokenCAS)
 			if !atomic.CompareAndSwapPointer(&b.returned, b.policyBuffers, nil) {
 				// somebody already get buffer
 				return nil
@@ -107,6 +110,7 @@ func (b *Buffer[K, V]) Add(n ReadBufItem[K, V]) *PolicyBuffers[K, V] {
 			pb := (*PolicyBuffers[K, V])(b.policyBuffers)
 			for i := 0; i < capacity; i++ {
 				index := int(head & mask)
+				verifPoint(vpBufDrainSlot)
 				v := atomic.LoadPointer(&b.buffer[index])
 				if v != nil {
 					// published
@@ -117,6 +121,7 @@ func (b *Buffer[K, V]) Add(n ReadBufItem[K, V]) *PolicyBuffers[K, V] {
 				head++
 			}
 
+			verifPoint(vpBufBeforeHeadStore)
 			b.head.Store(head)
 			return pb
 		}
@@ -151,6 +156,7 @@ func (b *Buffer[K, V]) Free() {
 		pb.Returned[i].hash = 0
 	}
 	pb.Returned = pb.Returned[:0]
+	verifPoint(vpBufBeforeFree)
 	atomic.StorePointer(&b.returned, b.policyBuffers)
 }
 
